@@ -245,10 +245,11 @@ pub fn gen_volume(rng: &mut Rng, p: &VolParams) -> VolumeSpec {
             items.push(StreamItem::Radial { hdr, msg });
             idx += 1;
             if p.meta_density > 0 && rng.chance(1, p.meta_density) {
-                let c = match rng.below(4) {
+                let c = match rng.below(5) {
                     0 => 2,
                     1 => 5,
                     2 => *rng.pick(&[15u8, 18, 3, 13, 1]),
+                    3 => 0,
                     _ => {
                         let c = rng.u8();
                         if c == 31 {
